@@ -25,6 +25,8 @@ def merge_stats(acc: dict, new: dict) -> dict:
             acc[k] = merge_stats(acc.get(k, {}), v)
         elif isinstance(v, bool):
             acc[k] = acc.get(k, 0) + int(v)
+        elif isinstance(v, (int, float)) and k.startswith("max_"):
+            acc[k] = max(acc.get(k, 0), v)
         elif isinstance(v, (int, float)):
             acc[k] = acc.get(k, 0) + v
         elif isinstance(v, list):
